@@ -250,6 +250,16 @@ var c06Invalid = []struct {
 		d["contents"] = []any{map[string]any{"src": tree(env).P("etc/app.conf"), "dst": "/x", "file_info": map[string]any{"mode": 0o600}},
 			map[string]any{"src": tree(env).P("etc/app.conf"), "dst": "/x", "type": "config|noreplace", "file_info": map[string]any{"mode": 0o644, "owner": "app"}}}
 	}},
+	// the same with an override block for the format (whatever the block sets, two entries at one path collide)
+	{"content-collision-same-source-with-override-block", Formats, func(env *engine.Env, d fixture.Doc, f string) {
+		d["contents"] = []any{map[string]any{"src": tree(env).P("etc/app.conf"), "dst": "/x", "file_info": map[string]any{"mode": 0o600}},
+			map[string]any{"src": tree(env).P("etc/app.conf"), "dst": "/x", "file_info": map[string]any{"mode": 0o644}}}
+		d["overrides"] = map[string]any{f: map[string]any{"depends": []any{"x"}}}
+	}},
+	{"apk-sign-key-id-no-key-name-maintainer-without-address", []string{"apk"}, func(env *engine.Env, d fixture.Doc, f string) {
+		d["apk"] = map[string]any{"signature": map[string]any{"key_file": keyPath(env, "rsa_unprotected.priv"), "key_id": "ignored"}}
+		d["maintainer"] = "Jane Roe"
+	}},
 	{"content-collision-glob-and-file", Formats, func(env *engine.Env, d fixture.Doc, f string) {
 		d["contents"] = []any{map[string]any{"src": tree(env).P("etc/conf.d/*.conf"), "dst": "/etc/conf.d"},
 			map[string]any{"src": tree(env).P("etc/conf.d/a.conf"), "dst": "/etc/conf.d/a.conf", "type": "config"}}
